@@ -313,6 +313,8 @@ def judge_convergence(seed):
 
 
 MOLS = {
+    # a rod (octatetrayne): bounding box very different along the three axes
+    "rod": ([1] + [6] * 8 + [1], [[0, 0, -1.06]] + [[0, 0, 1.28 * i] for i in range(8)] + [[0, 0, 1.28 * 7 + 1.06]]),
     "water": ([8, 1, 1], [[0, 0, 0.117], [0, 0.757, -0.467], [0, -0.757, -0.467]]),
     "methanol": ([6, 8, 1, 1, 1, 1], [[0.0, 0.0, 0.0], [1.42, 0.0, 0.0], [-0.36, 1.03, 0.0], [-0.36, -0.51, 0.89], [-0.36, -0.51, -0.89], [1.74, 0.9, 0.0]]),
     "acetic": ([6, 6, 8, 8, 1, 1, 1, 1], [[0.0, 0.0, 0.0], [1.5, 0.0, 0.0], [2.1, 1.1, 0.0], [2.2, -1.1, 0.0], [-0.4, 1.0, 0.0], [-0.4, -0.5, 0.9],
@@ -327,7 +329,9 @@ def judge_promolecule(name, seed):
     nrng = np.random.default_rng(seed)
     n, p = MOLS[name]
     q, r = np.linalg.qr(nrng.normal(size=(3, 3)))
-    p = np.array(p) @ q.T + nrng.normal(size=3) * 3
+    if seed % 3 == 0:
+        q = np.eye(3)[nrng.permutation(3)]          # axis-aligned poses too
+    p = np.array(p) @ q.T + nrng.normal(size=3) * 8  # anywhere in space, not near the coordinate origin
     pro = PromoleculeDensity((np.array(n), p))
     resid = []
     for sep in (1.0, 0.5, 0.2):
@@ -399,7 +403,7 @@ def plan(ctx, budget):
         yield ("field", rng.randrange(1 << 30))
     for _ in range(2 if budget == "quick" else 10):
         yield ("convergence", rng.randrange(1 << 30))
-    for name in (("water", "acetic") if budget == "quick" else tuple(MOLS)):
+    for name in (("water", "acetic", "rod") if budget == "quick" else tuple(MOLS) * 3):
         yield ("promolecule:" + name, rng.randrange(1 << 30))
     yield ("wrappers", 0)
 
